@@ -147,7 +147,7 @@ def projList (g : G K V) (c : Nat) : List (K × V) × List Nat :=
 def proj (g : G K V) (n : Nat) : List (List (K × V) × List Nat) × Nat := ((List.range n).map (projList g), g.p)
 
 /-- the modelled operation (`none`: not modelled — nothing to compare) -/
-def action (comp op : String) (args par : List Nat) : Option (Act K V Unit) :=
+def action (comp op : String) (args par : List Nat) (verdict : Bool) : Option (Act K V Unit) :=
   let size := par.getD 0 0
   let rs := par.getD 1 0
   let ro (_cs : List Nat) : Act K V Unit := fun g => (some (), g)   -- read-only calls leave every list as it is
@@ -167,6 +167,10 @@ def action (comp op : String) (args par : List Nat) : Option (Act K V Unit) :=
   | "arc", "get", [k] | "arc", "getmut", [k, _] => some (do let _ ← Arc.get k)
   | "arc", "remove", [k] => some (do let _ ← Arc.remove k)
   | "arc", "purge", [] => some Arc.purge
+  | "wtinylfu", "put", [k, v] => some (do let _ ← Wt.put verdict k v)
+  | "wtinylfu", "get", [k] | "wtinylfu", "getmut", [k, _] => some (do let _ ← Wt.get k)
+  | "wtinylfu", "remove", [k] => some (do let _ ← Wt.remove k)
+  | "wtinylfu", "purge", [] => some Wt.purge
   | _, "peek", _ | _, "peekmut", _ | _, "contains", _ | _, "clone", _ | _, "iter", _ | _, "len", _ | _, "cap", _
   | _, "isempty", _ => some (ro [])
   | _, _, _ => none
@@ -185,16 +189,19 @@ def checkLine (line : String) : String :=
     let post := (postf.splitOn ";").map parseList
     let seen := (post, (parseNums ppostf).getD 2 0)
     let n := pre.length
-    match action comp op args par with
-    | none => s!"skip {op}"
-    | some act =>
-      let big := 100000
-      let (_, gfin) := act (mkG caps (par.getD 2 0) pre big)
-      let used := big - gfin.ticks
-      let outs := (List.range (used + 1)).map fun t => (act (mkG caps (par.getD 2 0) pre t)).2
-      if outs.any (·.fault) || gfin.fault then s!"FAULT {line}"
-      else if (gfin :: outs).any (fun g => proj g n == seen) then "ok"
+    match action comp op args par true, action comp op args par false with
+    | some actT, some actF =>
+      -- both admission verdicts of W-TinyLFU are explored (the other caches ignore the flag)
+      let explore := fun (act : Act K V Unit) =>
+        let big := 100000
+        let (_, gfin) := act (mkG caps (par.getD 2 0) pre big)
+        let used := big - gfin.ticks
+        gfin :: (List.range (used + 1)).map fun t => (act (mkG caps (par.getD 2 0) pre t)).2
+      let outs := explore actT ++ explore actF
+      if outs.any (·.fault) then s!"FAULT {line}"
+      else if outs.any (fun g => proj g n == seen) then "ok"
       else s!"UNEXPECTED {line}"
+    | _, _ => s!"skip {op}"
   | _, _, _, _, _, _, _ => s!"BAD {line}"
 end Comp
 
